@@ -78,9 +78,11 @@ Theorem C12_is_join_iff_programs :
 Proof. exact is_join_iff_programs. Qed.
 Print Assumptions C12_is_join_iff_programs.
 
-(* ... and errors.Is never invents a match: a leaf target is found iff it is a node of the tree *)
+(* ... and errors.Is never invents a match: a leaf target is found iff it is a node of the tree
+   (eqv: Go's == for comparable targets; same type and contents, via the type's Is method, for the uncomparable
+   slice-/map-based user types TypedU, on which == would panic and is never evaluated) *)
 Theorem C12_is_exactly_nodes :
-  forall t e, leaf t = true -> wf e = true -> go_is e t = existsb (fun n => same n t) (nodes e).
+  forall t e, leaf t = true -> wf e = true -> go_is e t = existsb (fun n => eqv n t) (nodes e).
 Proof. exact is_exactly_nodes. Qed.
 Print Assumptions C12_is_exactly_nodes.
 
@@ -176,6 +178,50 @@ Theorem C12_collector_counts_non_nil :
     /\ unwind (coll_resolve tag c) = rev (filter (fun e => negb (is_nil e)) es).
 Proof. exact collector_counts_non_nil. Qed.
 Print Assumptions C12_collector_counts_non_nil.
+
+(* FilterExclude is all-or-nothing (ers/filter.go): it returns nil or its operand, and one excluded constituent
+   drops the whole aggregate — which is why filtering the result of Iterator.Observe loses the iterator's errors *)
+Theorem C12_filter_exclude_result : forall excl e, filter_exclude excl e = Nil \/ filter_exclude excl e = e.
+Proof. exact filter_exclude_result. Qed.
+Print Assumptions C12_filter_exclude_result.
+
+Theorem C12_filter_exclude_aggregate :
+  forall tag es t, plain t = true -> Forall (fun e => wf e = true) es ->
+    existsb (fun e => go_is e t) es = true -> filter_exclude [t] (join tag es) = Nil.
+Proof. exact filter_exclude_aggregate. Qed.
+Print Assumptions C12_filter_exclude_aggregate.
+
+(* erc.Consume / erc.Stream into a collector (after any Adds through Add / Handler / Check / Collect / When /
+   Recover): it holds exactly what was added, what the stream delivered, what the iterator carried and, when the
+   loop was cancelled, the context error; nothing is lost, nothing is invented *)
+Theorem C12_consume_holds_exactly :
+  forall tag adds pre steps cancelled,
+    let c := consume (coll_adds coll_zero adds) pre steps cancelled in
+    let held := supplied adds ++ consumed pre steps cancelled in
+    coll_len c = Z.of_nat (length held)
+    /\ (coll_resolve tag c = Nil <-> held = [])
+    /\ unwind (coll_resolve tag c) = rev held
+    /\ (forall t, plain t = true -> Forall (fun e => wf e = true) held ->
+          go_is (coll_resolve tag c) t = existsb (fun e => go_is e t) held).
+Proof. exact consume_holds_exactly. Qed.
+Print Assumptions C12_consume_holds_exactly.
+
+Theorem C12_consume_never_loses :
+  forall adds pre steps cancelled d f cn x c,
+    observe_spec steps cancelled = (d, f, cn) ->
+    In x adds \/ In x pre \/ In x d \/ In x f -> In c (constituents x) ->
+    In c (supplied adds ++ consumed pre steps cancelled).
+Proof. exact consume_never_loses. Qed.
+Print Assumptions C12_consume_never_loses.
+
+Theorem C12_consume_never_invents :
+  forall adds pre steps cancelled d f cn c,
+    observe_spec steps cancelled = (d, f, cn) ->
+    In c (supplied adds ++ consumed pre steps cancelled) ->
+    (cn = true /\ c = ctx_canceled) \/
+    exists x, (In x adds \/ In x pre \/ In x d \/ In x f) /\ In c (constituents x).
+Proof. exact consume_never_invents. Qed.
+Print Assumptions C12_consume_never_invents.
 
 (* Collector from many goroutines (instance of Conc/LockedObject): for every trace — any number of goroutines,
    any overlap — the history is linearizable and the collector holds exactly what the linearized Adds supplied *)
